@@ -355,6 +355,7 @@ def build(case):
         X = torch.stack([X + 0.0625 * k for k in range(nb)])
     vd = make_dist(dist, m, pb)
     b.dist = vd
+    b.pb = pb
     if strat == "vs":
         mk = lambda mod: V.VariationalStrategy(mod, Z, vd, learn_inducing_locations=True, **jkw)  # noqa: E731
     elif strat == "unwh":
@@ -544,11 +545,30 @@ class VariantOut:
         self.out.fail(key, "%s [under gpytorch.settings %s]" % (what, self.variant), case, **kw)
 
 
-def impl_outputs(b, variant=None):
-    """public outputs in eval and training mode (variant: name of a VARIANTS entry active during the calls)"""
+class HistoryOut:
+    """failures of a re-evaluation after a parameter change: key and text say which history"""
+
+    def __init__(self, out, hist):
+        self.out, self.hist = out, hist
+
+    def fail(self, key, what, case, **kw):
+        if not key.startswith(KNOWN_KEY_PREFIXES):
+            key = "%s@history:%s" % (key, self.hist)
+        case = dict(case, history=self.hist) if isinstance(case, dict) else case
+        self.out.fail(key, "%s [after the history %s on one model object: the first evaluation is made with OTHER "
+                      "parameters; compared with the closed form at the parameters in force at the last evaluation]"
+                      % (what, self.hist), case, **kw)
+
+
+def impl_outputs(b, variant=None, modes=("eval", "train"), toggle=True):
+    """public outputs in eval and training mode (variant: name of a VARIANTS entry active during the calls);
+    toggle=False: the model is called in the mode it is in, without calling .eval() / .train() again"""
     res = {}
-    for mode in ("eval", "train"):
-        getattr(b.model, mode)()
+    for mode in modes:
+        if toggle:
+            getattr(b.model, mode)()
+        elif b.model.training != (mode == "train"):
+            raise RuntimeError("model is not in %s mode" % mode)
         with torch.no_grad(), tight(), _multi(*(VARIANTS[variant]() if variant else [])):
             out = b.model(b.X)
             r = dict(mean=out.mean.detach().clone(), var=out.variance.detach().clone())
@@ -575,6 +595,62 @@ def impl_outputs(b, variant=None):
                 if b.case["dist"] != "delta":
                     r["qcov"] = q.covariance_matrix.detach().clone()
         res[mode] = r
+    return res
+
+
+# ---- re-evaluation after a parameter change on a model that has ALREADY been evaluated
+# The closed form is a function of the CURRENT parameters: whatever a strategy memoised during an earlier evaluation
+# (Cholesky factor of K_ZZ, q(u), p(u), cached solves) must not survive load_state_dict / a train-mode parameter update.
+HISTORIES = ["eval,load_state_dict,eval", "eval,train,assign,eval"]
+
+
+def other_parameters(b, rng):
+    """move EVERY parameter of the model to another valid value, in place: a fresh q(u) from the case generator's own
+    fill_dist, raw hyper-parameters / mean weights / mixing coefficients shifted by a dyadic constant, inducing points
+    translated"""
+    case = b.case
+    own = {id(p) for p in b.dist.parameters()}
+    with torch.no_grad():
+        fill_dist(b.dist, case["dist"], case["m"], b.pb, rng)
+        for name, p in b.model.named_parameters():
+            if id(p) in own:
+                continue
+            if name.endswith("inducing_points"):
+                p.add_(rng.choice([-0.1875, 0.1875, 0.3125]))
+            else:
+                p.add_(torch.tensor([rng.choice([-0.375, -0.25, 0.25, 0.375]) for _ in range(p.numel())]).reshape(p.shape))
+
+
+def impl_history(b, hist, rng):
+    """run the history on b.model; returns the impl dict (eval outputs = those of the LAST step of the history, train
+    outputs taken afterwards) or None when the old-parameter evaluation itself is not possible.  The model ends with the
+    parameters it started with."""
+    model = b.model
+    new = {k: v.detach().clone() for k, v in model.state_dict().items()}
+    model.eval()
+    try:
+        other_parameters(b, rng)
+        with torch.no_grad(), tight():
+            o = model(b.X); o.covariance_matrix      # fills the memoised pieces at the OLD parameters
+            try:
+                b.vs.kl_divergence()
+            except Exception:  # noqa: BLE001
+                pass
+        if hist == "eval,load_state_dict,eval":
+            model.load_state_dict(new)              # stays in eval mode
+        else:
+            model.train()
+            with torch.no_grad():
+                model(b.X)
+                cur = dict(model.named_parameters()); cur.update(dict(model.named_buffers()))
+                for k, v in new.items():
+                    cur[k].data.copy_(v)
+            model.eval()
+        res = impl_outputs(b, modes=("eval",), toggle=False)
+    finally:
+        model.load_state_dict(new)
+    model.train()
+    res.update(impl_outputs(b, modes=("train",), toggle=False))
     return res
 
 
@@ -840,7 +916,11 @@ def run(out, ctx):
                 "branch (trace_mode, lazily_evaluate_kernels off, fast_computations off + max_cholesky_size(0), "
                 "skip_posterior_variances, for the unwhitened strategy max_cholesky_size(0) = CG solves, for the grid strategy "
                 "memory_efficient / use_toeplitz off; CIQ in the quick tier: lazily_evaluate_kernels off + one rotating other) and "
-                "compared with the same closed form; cases taking the jitter from settings.variational_cholesky_jitter. "
+                "compared with the same closed form; cases taking the jitter from settings.variational_cholesky_jitter; every "
+                "configuration is also RE-evaluated on a model object that was first evaluated (eval mode, q(f) + KL) with OTHER "
+                "parameters (fresh q(u), shifted hyper-parameters / mean / mixing coefficients, translated inducing points): "
+                "histories eval -> load_state_dict(parameters) -> eval without leaving eval mode, and eval -> train -> in-place "
+                "parameter assignment -> eval; the outputs are compared with the closed form at the parameters in force. "
                 "non-trivial = q(u) != p(u)")
     out.extra["tolerances"] = dict(TOL, kl="same as strategy", qu_moments=1e-8,
                                    settings_variants="same as default settings; unwhitened CG path (max_cholesky_size(0)): "
@@ -848,6 +928,7 @@ def run(out, ctx):
     built, jobs = [], {"run_c14": [], "run_c14_dec": []}
     import time as _t
     variant_seconds = [0.0]
+    history_seconds = [0.0]
     for case in cases:
         # `jset` cases take the jitter from gpytorch.settings.variational_cholesky_jitter (no explicit jitter_val):
         # construction, planning (reads strategy.jitter_val) and every call happen inside the context
@@ -913,6 +994,18 @@ def run(out, ctx):
                                      "implementation raised %r under gpytorch.settings %s\n%s" % (e, vname, traceback.format_exc()[-800:]),
                                      dict(short(case), settings=vname))
                     variant_seconds[0] += _t.time() - _tv
+                b.impl_hist = {}
+                _th = _t.time()
+                for hi, hist in enumerate(HISTORIES):
+                    try:
+                        b.impl_hist[hist] = impl_history(b, hist, random.Random(case["hseed"] * 31 + hi))
+                    except Exception as e:  # noqa: BLE001
+                        import traceback
+                        out.case(dict(short(case), history=hist), True, label="history=%s" % hist)
+                        out.fail("impl-exception:%s:%s:%s@history:%s" % (case["strat"], case["dist"], type(e).__name__, hist),
+                                 "implementation raised %r in the history %s\n%s" % (e, hist, traceback.format_exc()[-800:]),
+                                 dict(short(case), history=hist))
+                history_seconds[0] += _t.time() - _th
             except Exception as e:  # noqa: BLE001
                 import traceback
                 out.fail("impl-exception:%s:%s:%s" % (case["strat"], case["dist"], type(e).__name__),
@@ -947,6 +1040,9 @@ def run(out, ctx):
         for vname, impl_v in b.impl_var.items():
             out.case(dict(short(case), settings=vname), nontrivial, label="settings=%s" % vname)
             compare_plain(VariantOut(out, vname), b, impl_v, dec_by_mode, variant=vname)
+        for hist, impl_h in b.impl_hist.items():
+            out.case(dict(short(case), history=hist), True, label="history=%s" % hist)
+            compare_plain(HistoryOut(out, hist), b, impl_h, dec_by_mode)
     if mt_jobs:
         r2 = C.coq_run_cases("C14_mt", IMPORTS, "Definition run := run_c14_mt.", mt_jobs,
                              shard=max(1, (len(mt_jobs) + 3) // 4))
@@ -955,7 +1051,11 @@ def run(out, ctx):
             for vname, impl_v in b.impl_var.items():
                 out.case(dict(short(b.case), settings=vname), True, label="settings=%s" % vname)
                 compare_mt(VariantOut(out, vname), b, r, impl=impl_v, variant=vname)
+            for hist, impl_h in b.impl_hist.items():
+                out.case(dict(short(b.case), history=hist), True, label="history=%s" % hist)
+                compare_mt(HistoryOut(out, hist), b, r, impl=impl_h)
     out.extra["variant_seconds"] = round(variant_seconds[0], 1)
+    out.extra["history_seconds"] = round(history_seconds[0], 1)
     check_refusals(out)
     if not ctx.get("only_cases"):
         check_initialize(out, random.Random(seed * 7919 + 1414), tier)
